@@ -9,6 +9,7 @@
   holds for every hash function, i.e. also when heads collide.
 -/
 import CstModel.Props.C01
+import CstModel.Props.C15
 namespace Cst.C04
 
 /-- build a list of trees one after the other through one cache; `none` if some build panics -/
@@ -157,6 +158,183 @@ theorem node_shared (cfg : Cfg) (c : Cache) (k : Nat) (cs : List Green) (hsmall 
       ((k, sumLen cs, cfg.H cs), Green.node c.nextId k (sumLen cs) (cfg.H cs) cs)
       (by simp [List.find?, Green.children, beqL_refl])
     rw [this]; exact ⟨rfl, rfl⟩
+
+/-! ### node entries are unique and stay: "stored once" for the whole history -/
+
+mutual
+theorem beq_symm : (a b : Green) → Green.beq a b = true → Green.beq b a = true
+  | .tok _ _ _ _, .tok _ _ _ _, h => by
+    simp only [Green.beq, Bool.and_eq_true, beq_iff_eq] at h ⊢
+    exact ⟨⟨h.1.1.symm, h.1.2.symm⟩, h.2.symm⟩
+  | .node _ _ _ _ cs1, .node _ _ _ _ cs2, h => by
+    simp only [Green.beq, Bool.and_eq_true, beq_iff_eq] at h ⊢
+    exact ⟨⟨⟨h.1.1.1.symm, h.1.1.2.symm⟩, h.1.2.symm⟩, beqL_symm cs1 cs2 h.2⟩
+  | .tok .., .node .., h => by simp [Green.beq] at h
+  | .node .., .tok .., h => by simp [Green.beq] at h
+theorem beqL_symm : (as bs : List Green) → Green.beqL as bs = true → Green.beqL bs as = true
+  | [], [], _ => rfl
+  | a :: as, b :: bs, h => by
+    simp only [Green.beqL, Bool.and_eq_true] at h ⊢
+    exact ⟨beq_symm a b h.1, beqL_symm as bs h.2⟩
+  | [], _ :: _, h => by simp [Green.beqL] at h
+  | _ :: _, [], h => by simp [Green.beqL] at h
+end
+
+mutual
+theorem beq_trans : (a b c : Green) → Green.beq a b = true → Green.beq b c = true → Green.beq a c = true
+  | .tok _ _ _ _, .tok _ _ _ _, .tok _ _ _ _, h1, h2 => by
+    simp only [Green.beq, Bool.and_eq_true, beq_iff_eq] at h1 h2 ⊢
+    exact ⟨⟨h1.1.1.trans h2.1.1, h1.1.2.trans h2.1.2⟩, h1.2.trans h2.2⟩
+  | .node _ _ _ _ cs1, .node _ _ _ _ cs2, .node _ _ _ _ cs3, h1, h2 => by
+    simp only [Green.beq, Bool.and_eq_true, beq_iff_eq] at h1 h2 ⊢
+    exact ⟨⟨⟨h1.1.1.1.trans h2.1.1.1, h1.1.1.2.trans h2.1.1.2⟩, h1.1.2.trans h2.1.2⟩, beqL_trans cs1 cs2 cs3 h1.2 h2.2⟩
+  | .tok .., .node .., _, h1, _ => by simp [Green.beq] at h1
+  | .node .., .tok .., _, h1, _ => by simp [Green.beq] at h1
+  | .tok .., .tok .., .node .., _, h2 => by simp [Green.beq] at h2
+  | .node .., .node .., .tok .., _, h2 => by simp [Green.beq] at h2
+theorem beqL_trans : (as bs cs : List Green) → Green.beqL as bs = true → Green.beqL bs cs = true → Green.beqL as cs = true
+  | [], [], [], _, _ => rfl
+  | a :: as, b :: bs, c :: cs, h1, h2 => by
+    simp only [Green.beqL, Bool.and_eq_true] at h1 h2 ⊢
+    exact ⟨beq_trans a b c h1.1 h2.1, beqL_trans as bs cs h1.2 h2.2⟩
+  | [], _ :: _, _, h1, _ => by simp [Green.beqL] at h1
+  | _ :: _, [], _, h1, _ => by simp [Green.beqL] at h1
+  | [], [], _ :: _, _, h2 => by simp [Green.beqL] at h2
+  | _ :: _, _ :: _, [], _, h2 => by simp [Green.beqL] at h2
+end
+
+/-- two entries of the node cache never stand for the same small node -/
+def NodeUniq (c : Cache) : Prop :=
+  c.nodes.Pairwise (fun e1 e2 => ¬ (e1.1 = e2.1 ∧ Green.beqL e1.2.children e2.2.children = true))
+
+theorem nodeUniq_empty (I : Interner) : NodeUniq (Cache.empty I) := by simp [NodeUniq, Cache.empty]
+
+/-- the invariant survives every request (with the children comparison of the fixed code) -/
+theorem nodeUniq_node (cfg : Cfg) (hcmp : cfg.cmpChildren = true) (c : Cache) (k : Nat) (cs : List Green)
+    (h : NodeUniq c) : NodeUniq (c.node cfg k cs).2 := by
+  unfold Cache.node
+  simp only
+  split
+  · cases hf : c.nodes.find? (fun e => e.1 == (k, sumLen cs, cfg.H cs) && (!cfg.cmpChildren || Green.beqL e.2.children cs)) with
+    | some e => exact h
+    | none =>
+      simp only [NodeUniq, List.pairwise_cons]
+      refine ⟨?_, h⟩
+      intro e he ⟨h1, h2⟩
+      have := List.find?_eq_none.mp hf e he
+      simp only [hcmp, Bool.not_true, Bool.false_or, Bool.and_eq_true, beq_iff_eq, not_and, Bool.not_eq_true] at this
+      have hb : Green.beqL e.2.children cs = true := beqL_symm _ _ (by simpa [Green.children] using h2)
+      rw [this h1.symm] at hb
+      cases hb
+  · exact h
+
+theorem nodeUniq_token (c : Cache) (d : TokData) (h : NodeUniq c) : NodeUniq (c.token d).2 := by
+  unfold Cache.token
+  split <;> exact h
+
+/-- requests only ever add entries -/
+theorem node_entries_grow (cfg : Cfg) (c : Cache) (k : Nat) (cs : List Green) (e : Head × Green)
+    (he : e ∈ c.nodes) : e ∈ (c.node cfg k cs).2.nodes := by
+  unfold Cache.node
+  simp only
+  split
+  · split
+    · exact he
+    · exact List.mem_cons_of_mem _ he
+  · exact he
+
+theorem token_keeps_nodes (c : Cache) (d : TokData) : (c.token d).2.nodes = c.nodes := by
+  unfold Cache.token
+  split <;> rfl
+
+/-- what a request for a small node answers with is an entry of the cache afterwards -/
+theorem node_answer_entry (cfg : Cfg) (hcmp : cfg.cmpChildren = true) (c : Cache) (k : Nat) (cs : List Green)
+    (hsmall : cs.length ≤ cfg.threshold) :
+    ((k, sumLen cs, cfg.H cs), (c.node cfg k cs).1) ∈ (c.node cfg k cs).2.nodes ∧
+    Green.beqL (c.node cfg k cs).1.children cs = true := by
+  unfold Cache.node
+  simp only [hsmall, ↓reduceIte]
+  cases hf : c.nodes.find? (fun e => e.1 == (k, sumLen cs, cfg.H cs) && (!cfg.cmpChildren || Green.beqL e.2.children cs)) with
+  | some e =>
+    have hp := List.find?_some hf
+    simp only [hcmp, Bool.not_true, Bool.false_or, Bool.and_eq_true, beq_iff_eq] at hp
+    have hm := List.mem_of_find?_eq_some hf
+    simp only
+    exact ⟨by rw [← hp.1]; exact hm, hp.2⟩
+  | none =>
+    simp only
+    exact ⟨by simp, by simp [Green.children, beqL_refl]⟩
+
+theorem find_unique {α : Type} (R : α → α → Prop) (p : α → Bool) (l : List α) (x : α)
+    (hpw : l.Pairwise R) (hR : ∀ a b, p a = true → p b = true → ¬ R a b) (hx : x ∈ l) (hpx : p x = true) :
+    l.find? p = some x := by
+  induction l with
+  | nil => cases hx
+  | cons y ys ih =>
+    rw [List.pairwise_cons] at hpw
+    by_cases hpy : p y = true
+    · simp only [List.find?_cons, hpy]
+      simp only [List.mem_cons] at hx
+      rcases hx with rfl | hx
+      · rfl
+      · exact absurd (hpw.1 x hx) (hR y x hpy hpx)
+    · simp only [List.find?_cons, hpy]
+      simp only [List.mem_cons] at hx
+      rcases hx with rfl | hx
+      · exact absurd hpx hpy
+      · exact ih hpw.2 hx
+
+/-- **stored once, for the whole history**: once a small node stands in the cache, *every* later request
+    for a structurally equal small node of that kind — after any number of other requests, which only
+    add entries and keep them unique — is answered with that very allocation, and the cache does not grow.
+    (`hH`: structurally equal child lists hash equally — `C15.fx_respects` for the real hash.) -/
+theorem node_entry_stable (cfg : Cfg) (hcmp : cfg.cmpChildren = true)
+    (hH : ∀ a b, Green.beqL a b = true → cfg.H a = cfg.H b ∧ sumLen a = sumLen b)
+    (c : Cache) (hu : NodeUniq c) (k : Nat) (g : Green) (cs0 cs : List Green)
+    (hentry : ((k, sumLen cs0, cfg.H cs0), g) ∈ c.nodes) (hg : Green.beqL g.children cs0 = true)
+    (heq : Green.beqL cs0 cs = true) (hsmall : cs.length ≤ cfg.threshold) :
+    c.node cfg k cs = (g, c) := by
+  obtain ⟨e1, e2⟩ := hH cs0 cs heq
+  have hfind : c.nodes.find? (fun e => e.1 == (k, sumLen cs, cfg.H cs) && (!cfg.cmpChildren || Green.beqL e.2.children cs)) =
+      some ((k, sumLen cs0, cfg.H cs0), g) := by
+    apply find_unique (fun (e1 e2 : Head × Green) => ¬ (e1.1 = e2.1 ∧ Green.beqL e1.2.children e2.2.children = true)) _ c.nodes _ hu
+    · intro a b ha hb hR
+      simp only [hcmp, Bool.not_true, Bool.false_or, Bool.and_eq_true, beq_iff_eq] at ha hb
+      exact hR ⟨ha.1.trans hb.1.symm, beqL_trans _ _ _ ha.2 (beqL_symm _ _ hb.2)⟩
+    · exact hentry
+    · simp only [hcmp, Bool.not_true, Bool.false_or, Bool.and_eq_true, beq_iff_eq]
+      exact ⟨by rw [e1, e2], beqL_trans _ _ _ hg heq⟩
+  unfold Cache.node
+  simp [hsmall, hfind]
+
+theorem len_of_beq : (a b : Green) → Green.beq a b = true → a.len = b.len
+  | .tok _ _ _ _, .tok _ _ _ _, h => by
+    simp only [Green.beq, Bool.and_eq_true, beq_iff_eq] at h; simp [Green.len, h.2]
+  | .node _ _ _ _ _, .node _ _ _ _ _, h => by
+    simp only [Green.beq, Bool.and_eq_true, beq_iff_eq] at h; simp [Green.len, h.1.1.2]
+  | .tok .., .node .., h => by simp [Green.beq] at h
+  | .node .., .tok .., h => by simp [Green.beq] at h
+
+theorem sumLen_of_beqL : (as bs : List Green) → Green.beqL as bs = true → sumLen as = sumLen bs
+  | [], [], _ => rfl
+  | a :: as, b :: bs, h => by
+    simp only [Green.beqL, Bool.and_eq_true] at h
+    simp [sumLen, len_of_beq a b h.1, sumLen_of_beqL as bs h.2]
+  | [], _ :: _, h => by simp [Green.beqL] at h
+  | _ :: _, [], h => by simp [Green.beqL] at h
+
+/-- the same for the implementation's hash (Fx over the children's words, under any mask) and the
+    comparison the source makes (extracted) -/
+theorem node_entry_stable_impl (mask : UInt32) (statics : List (Nat × Text)) (th : Nat) (dbg : Bool)
+    (c : Cache) (hu : NodeUniq c) (k : Nat) (g : Green) (cs0 cs : List Green) :
+    let cfg : Cfg := { statics := statics, H := fxChildHash mask, threshold := th,
+                       cmpChildren := SourceFacts.nodeCacheComparesChildren, debug := dbg }
+    ((k, sumLen cs0, cfg.H cs0), g) ∈ c.nodes → Green.beqL g.children cs0 = true →
+    Green.beqL cs0 cs = true → cs.length ≤ cfg.threshold → c.node cfg k cs = (g, c) := by
+  intro cfg h1 h2 h3 h4
+  have hc : SourceFacts.nodeCacheComparesChildren = true := by decide
+  exact node_entry_stable cfg hc (fun a b hab => ⟨C15.fx_respects mask a b hab, sumLen_of_beqL a b hab⟩)
+    c hu k g cs0 cs h1 h2 h3 h4
 
 /-- nodes above the threshold are never entered into the cache -/
 theorem big_node_not_cached (cfg : Cfg) (c : Cache) (k : Nat) (cs : List Green) (hbig : cfg.threshold < cs.length) :
